@@ -674,8 +674,18 @@ func genC03(cw *caseWriter, seed uint64, tier string) {
 			for _, i := range p {
 				parts = append(parts, `"`+keys[i]+`":`+vals[i])
 			}
+			// exactly the declared key set, read without a template or with the columns declared in reverse
+			// order (library use: the importer's row does not follow the rendering template's order)
+			exact := []byte("{" + strings.Join(parts, ",") + "}")
+			var rev []colDesc
+			for i := len(cols) - 1; i >= 0; i-- {
+				rev = append(rev, cols[i])
+			}
+			emitLine(cw, "C03", nil, cols, exact, true)
+			emitLine(cw, "C03", rev, cols, exact, true)
 			parts = append(parts, `"x":{"y":1,"a":2}`)
 			emitLine(cw, "C03", cols, cols, []byte("{"+strings.Join(parts, ",")+"}"), true)
+			emitLine(cw, "C03", nil, cols, []byte("{"+strings.Join(parts, ",")+"}"), true)
 			if r.chance(1, 4) {
 				emitText(cw, "C03", cols, []byte("{"+strings.Join(parts, ",")+"}"), r.chance(1, 2))
 			}
@@ -693,6 +703,16 @@ func genC03(cw *caseWriter, seed uint64, tier string) {
 			to = sameNames(r, ti, false)
 		}
 		line := []byte(orderObject(r, ti, true))
+		switch r.intn(6) {
+		case 0: // no input template
+			emitLine(cw, "C03", nil, to, line, true)
+		case 1: // the same columns declared in reverse order on the input side
+			var rev []colDesc
+			for i := len(ti) - 1; i >= 0; i-- {
+				rev = append(rev, ti[i])
+			}
+			emitLine(cw, "C03", rev, to, line, true)
+		}
 		emitLine(cw, "C03", ti, to, line, true)
 		if r.chance(1, 3) {
 			emitText(cw, "C03", to, line, r.chance(1, 2))
@@ -727,6 +747,24 @@ func genC04(cw *caseWriter, seed uint64, tier string) {
 					emitLine(cw, "C04", ti, tt, []byte(line), true)
 					if r.chance(1, 4) {
 						emitText(cw, "C04", tt, []byte(line), r.chance(1, 2))
+					}
+				}
+			}
+		}
+	}
+	// date / datetime / string rendering of instants next to the year 0000 and 9999 boundaries, under process
+	// zones on both sides of Greenwich (the rendered year is the year in the rendering zone)
+	saved := time.Local
+	defer func() { time.Local = saved }()
+	for _, z := range zones() {
+		time.Local = z.loc
+		for _, fo := range []string{"date", "datetime", "string", "auto", "timestamp"} {
+			for _, to := range []string{"none", "time", "i64", "str"} {
+				for _, base := range []int64{253402300800, -62167219200} {
+					for _, d := range []int64{-86400, -43200, -19800, -18000, -10800, -7200, -3600, -1, 0, 1, 3599, 3600, 7200, 10800, 18000, 19800, 43200, 86400} {
+						ti := []colDesc{{name: "c", format: pick(r, []string{"auto", "timestamp", "numeric", "datetime"}), ty: pick(r, []string{"none", "i64", "time"})}}
+						tt := []colDesc{{name: "c", format: fo, ty: to}}
+						emitLine(cw, "C04", ti, tt, []byte(fmt.Sprintf(`{"c":%d}`, base+d)), true)
 					}
 				}
 			}
